@@ -1,5 +1,6 @@
 import PyCraft.Drive.Util
 import PyCraft.Model.PacketBuffer
+import PyCraft.Props.C01BufferFrame
 namespace PyCraft.Drive
 open PyCraft PyCraft.PBuf
 
@@ -25,6 +26,38 @@ def pbuf (toks : List String) : Option String :=
       let r := run init os
       some (String.intercalate " " (s!"ok pos={r.1.pos} len={r.1.buf.length}" :: r.2.map hexOut))
     | none => some "bad-op"
+  | _ => none
+
+def pbufTok : Op → String
+  | .send v => "s:" ++ hexOut v
+  | .read none => "r:*"
+  | .read (some n) => s!"r:{n}"
+  | .reset => "R"
+  | .rewind => "c"
+  | .getw => "g"
+
+/-- `pbuf.rp <-|k:dhex> v:<hex> (v:<hex>)* (n:<k>|n:*)*` → the tokens of
+`C01BufferFrame.readPacketOps` (the operations `read_packet` issues on its buffer). -/
+def pbufRp (toks : List String) : Option String :=
+  match toks with
+  | "pbuf.rp" :: comp :: rest =>
+    let compO : Option (Option (Nat × Bytes)) :=
+      if comp = "-" then some none
+      else match comp.splitOn ":" with
+        | [k, d] => do let k ← k.toNat?; let d ← bytesOfHex d; pure (some (k, d))
+        | _ => none
+    let segs := rest.filter (·.startsWith "v:")
+    let reads := rest.filter (·.startsWith "n:")
+    let segsO := segs.mapM (fun t => bytesOfHex (t.drop 2).toString)
+    let readsO : Option (List (Option Nat)) := reads.mapM (fun t =>
+      let a := (t.drop 2).toString
+      if a = "*" then some none else a.toNat?.map some)
+    match compO, segsO, readsO with
+    | some c, some (v :: vs), some rs =>
+      if segs.length + reads.length = rest.length then
+        some (String.intercalate " " ((C01BufferFrame.readPacketOps v vs c rs).map pbufTok))
+      else some "bad-op"
+    | _, _, _ => some "bad-op"
   | _ => none
 
 end PyCraft.Drive
